@@ -1,1 +1,4 @@
 import Props.C09
+import Props.C01
+import Props.C02
+import Props.C12
